@@ -281,6 +281,10 @@ func (p *Properties) UnpackWillProperties(bufr *bytes.Buffer) error {
 	if err != nil {
 		return err
 	}
+	if length > bufr.Len() {
+		// the properties cannot be longer than what is left of the packet
+		return codes.ErrMalformed
+	}
 	if length == 0 {
 		return nil
 	}
@@ -346,6 +350,10 @@ func (p *Properties) Unpack(bufr *bytes.Buffer, packetType byte) error {
 	// 整个buffer最多只能读到length这么长
 	if err != nil {
 		return err
+	}
+	if length > bufr.Len() {
+		// the properties cannot be longer than what is left of the packet
+		return codes.ErrMalformed
 	}
 	if length == 0 {
 		return nil
